@@ -53,6 +53,8 @@ def strat2d(tier):
 def check1d(case):
     md = case["mesh"]
     m = cases.build_mesh(md)
+    cases.build_mesh(dict(kind="uni", n=md["n"] + 3, length=2.5 * md["length"], x0=1.0))          # decoys built after the mesh under test
+    cases.build_mesh(dict(kind="refined", n=md["n"] + 2, length=0.5 * md["length"], ratio=3.0, a=1, b=2))
     n = md["n"]
     kind = md["kind"]
     xf = np.asarray(m.xf, dtype=float)
@@ -141,6 +143,9 @@ def _uniform(d):
 def check2d(case):
     nx, ny, lx, ly = case["nx"], case["ny"], case["lx"], case["ly"]
     m = cases.build_mesh2d(case)
+    # a mesh must not depend on meshes constructed after it (convergence studies build all their meshes first): two decoys, then judge the first
+    cases.build_mesh2d(dict(nx=ny + 1, ny=nx + 2, lx=2.0 * ly, ly=0.5 * lx))
+    cases.build_mesh2d(dict(nx=nx + 3, ny=max(1, ny - 1), lx=lx, ly=ly))
     dx, dy = lx / nx, ly / ny
     require(m.ncell == nx * ny, "ncell", "ncell = %r" % m.ncell)
     nxf, nyf = (nx + 1) * ny, nx * (ny + 1)
